@@ -203,7 +203,8 @@ func gen(r *vh.Run, stream string, g int, transport string, race bool) tcase {
 	c.PipeCap = []int{4096, 16384, 65536, 1 << 20}[rng.Intn(4)]
 	c.Seg = []string{"none", "small", "mixed"}[rng.Intn(3)]
 	c.Chunk = []string{"tiny", "small", "mixed", "mixed", "large"}[rng.Intn(5)]
-	c.DSHead = []string{"HTTP/1.1 200 OK\r\n\r\n", "HTTP/1.1 200 Connection established\r\nProxy-Agent: verif-downstream\r\n\r\n"}[rng.Intn(2)]
+	c.DSHead = []string{"HTTP/1.1 200 OK\r\n\r\n", "HTTP/1.1 200 Connection established\r\nProxy-Agent: verif-downstream\r\n\r\n",
+		"HTTP/1.0 200 Connection established\r\n\r\n", "HTTP/1.1 200 OK\r\nContent-Length: 0\r\n\r\n"}[rng.Intn(4)]
 	return c
 }
 
@@ -318,7 +319,7 @@ func decodeStamp(b []byte) (id uint32, blk uint64) {
 // expected to be stream offset off of stream id.
 func classify(got []byte, p int, off int64, id uint32) string {
 	// find the next full 8-byte block in got whose id field is a known id
-	for s := p; s+8 <= len(got) && s < p+16; s++ {
+	for s := p; s+8 <= len(got) && s < p+24; s++ {
 		gid, blk := decodeStamp(got[s : s+8])
 		if gid == id {
 			src := int64(blk) * 8
@@ -341,6 +342,20 @@ func classify(got []byte, p int, off int64, id uint32) string {
 func (e *end) recvLoop(maxRead int) {
 	buf := make([]byte, maxRead)
 	exp := make([]byte, maxRead)
+	var pend []byte // received bytes from the first divergence on
+	var pendOff int64
+	finish := func() {
+		if pend == nil || e.mis.Load() != nil {
+			return
+		}
+		hi := 24
+		if hi > len(pend) {
+			hi = len(pend)
+		}
+		want := make([]byte, hi)
+		vh.StampInto(want, e.recvID, pendOff)
+		e.mis.Store(&mismatch{Off: pendOff, Kind: classify(pend, 0, pendOff, e.recvID), Got: fmt.Sprintf("%x", pend[:hi]), Want: fmt.Sprintf("%x", want)})
+	}
 	for {
 		k := maxRead
 		if e.rrng.Intn(4) == 0 {
@@ -350,19 +365,27 @@ func (e *end) recvLoop(maxRead int) {
 		if n > 0 {
 			off := atomic.LoadInt64(&e.recv)
 			vh.StampInto(exp[:n], e.recvID, off)
-			if e.mis.Load() == nil && !bytes.Equal(buf[:n], exp[:n]) {
-				d := vh.FirstDiff(buf[:n], exp[:n])
-				hi := d + 24
-				if hi > n {
-					hi = n
+			if e.mis.Load() == nil {
+				if pend != nil {
+					// collect a few more bytes behind the divergence before classifying it
+					pend = append(pend, buf[:n]...)
+					if len(pend) >= 40 {
+						finish()
+					}
+				} else if !bytes.Equal(buf[:n], exp[:n]) {
+					d := vh.FirstDiff(buf[:n], exp[:n])
+					pendOff = off + int64(d)
+					pend = append([]byte{}, buf[d:n]...)
+					if len(pend) >= 40 {
+						finish()
+					}
 				}
-				e.mis.Store(&mismatch{Off: off + int64(d), Kind: classify(buf[:n], d, off+int64(d), e.recvID),
-					Got: fmt.Sprintf("%x", buf[d:hi]), Want: fmt.Sprintf("%x", exp[d:hi])})
 			}
 			atomic.AddInt64(&e.recv, int64(n))
 			atomic.AddInt64(e.events, 1)
 		}
 		if err != nil {
+			finish()
 			if err == io.EOF {
 				atomic.StoreInt32(&e.term, 1)
 			} else {
@@ -933,10 +956,9 @@ func runTunnel(r *vh.Run, c tcase, budget *tunx.Budget) {
 	switch {
 	case c.CloseAt == "before":
 		timing = "before"
-	case bDoneAtClose:
-		timing = "after"
+	case bDoneAtClose && A.Recv() == bAtClose:
+		timing = "after" // the peer's stream was finished and fully received
 	}
-	_ = bAtClose
 	if c.CloseMode == "half" {
 		if err := A.closeHalf(); err != nil {
 			A.closeFull()
@@ -1002,7 +1024,7 @@ func runTunnel(r *vh.Run, c tcase, budget *tunx.Budget) {
 	if A.Recv() > bFinal || B.Recv() > aFinal {
 		r.ViolationCase(c, "C04:bytes:extra", fmt.Sprintf("an end received more bytes than were sent (A got %d of %d, B got %d of %d)", A.Recv(), bFinal, B.Recv(), aFinal), nil)
 	}
-	if timing == "after" && !stalled && A.Recv() != bFinal {
+	if c.CloseAt == "after" && !stalled && A.Recv() != bFinal {
 		r.ViolationCase(c, "C04:bytes-before-eof:"+dirBA, fmt.Sprintf("closer had received %d of the %d bytes of the finished peer stream", A.Recv(), bFinal), w.state())
 	}
 
@@ -1051,8 +1073,13 @@ func runTunnel(r *vh.Run, c tcase, budget *tunx.Budget) {
 	if c.TargetFirst > 0 {
 		tf = "tf+"
 	}
-	r.Class(strings.Join([]string{c.Transport, c.Route, "early=" + earlyBucket(c.Early), split, tf, "closer=" + c.Closer, c.CloseMode, timing,
-		"a=" + sizeBucket(int(aFinal)), "b=" + sizeBucket(int(bFinal))}, "|"))
+	big := aFinal
+	if bFinal > big {
+		big = bFinal
+	}
+	r.Count("cases_target_speaks_first_"+tf, 1)
+	r.Class(strings.Join([]string{c.Transport, c.Route, "early=" + earlyBucket(c.Early), split, "closer=" + c.Closer, c.CloseMode, timing,
+		"max=" + sizeBucket(int(big))}, "|"))
 	if c.Idx%40 == 3 {
 		r.Sample(map[string]interface{}{"case": c, "observed": map[string]interface{}{
 			"client_sent": cl.Sent(), "client_received": cl.Recv(), "target_sent": tg.Sent(), "target_received": tg.Recv(),
@@ -1231,11 +1258,11 @@ func run(r *vh.Run, batch string) {
 	race := false
 	switch kind {
 	case "pipe":
-		n = r.Pick(30, 90)
+		n = r.Pick(40, 300)
 	case "tcp":
-		n = r.Pick(24, 60)
+		n = r.Pick(30, 200)
 	case "race":
-		n = r.Pick(15, 30)
+		n = r.Pick(16, 80)
 		race = true
 	}
 	// unreachable targets first
